@@ -23,7 +23,7 @@ RULE = ('round-trip case = (message list, codec, format, configuration): the fil
         'least one message.')
 ASSUMPTIONS = ['vmon/ref/codec.py, vmon/ref/blocking.py', 'each thread owns its files and message objects (the statement is about '
                'different files)', 'messages are at most MAX_VBS_RECORD_LENGTH bytes when encoded']
-SHARD_TIMEOUT = {'quick': 900, 'thorough': 5400}
+SHARD_TIMEOUT = {'quick': 1800, 'thorough': 14400}
 ENCS = ('latin_1', 'cp500', 'cp037')
 
 
